@@ -13,7 +13,7 @@ NOTE = ("Trusted base: go/ssa construction (x/tools v0.29.0), the executor's ins
 # id -> (design section, what the quick tier decides)
 CLAIMED = {
  "C01": ("7/C01", "all dates of years 0000-9999 x {extended, basic}: formatter output is the canonical zero-padded text and every in-package input path (bytes, string, UnmarshalText) returns the same date; MarshalText/String/%s/%e/%b agree; 5-digit years (thorough: 6-9) under a symbolic MaxInputLength. encoding/json and encoding/xml plumbing is outside."),
- "C02": ("7/C02", "all n < 3000 (thorough: < 13000) x all 128 flag sets: the numeral is the unique canonical one, parses back to n (bytes and string) and is Valid; MarshalText/String/%s under every DefaultFormat and the %R %r %L %l verbs for n < 2000."),
+ "C02": ("7/C02", "all n < 3000 and 65000..65999 (thorough: < 13000 and the thousands 32, 64, 100, 127) x all 128 flag sets: the numeral is the unique canonical one, parses back to n (bytes and string) and is Valid; MarshalText/String/%s under every DefaultFormat and the %R %r %L %l verbs for n < 2000."),
  "C03": ("7/C03", "every byte string up to length 8 (thorough 10) over all 256 byte values: accepted iff an independent BNF scanner accepts under the entry point's tag rule, numbers equal, formatting reproduces the input, reject => zero Ver and typed error; 19/20/21-digit components at each position against 2^64-1; Valid() <=> round trip for pre-release/build strings up to 4+2 bytes (thorough 5+2), also judged against the grammar itself."),
  "C04": ("7/C04", "all 2^64 sizes x the 8 combinations of the three Disable* switches: MarshalText->UnmarshalText, MarshalJSON->UnmarshalJSON (object, string and number forms through a token-level model of encoding/json), String, PrettyString and BytesString -> DefaultParser return the same size without error. Nesting in encoding/json containers (struct fields, slices, maps) is outside: reflection-driven standard-library code that hands MarshalJSON's bytes through."),
  "C05": ("7/C05", "all 256^36 and 256^45 inputs x 4 rule sets against an independent predicate, every other length 0..64 rejected, all 2^128 IDs: exact 8-4-4-4-12 layout, round trip in lower/upper case with/without URN, Version/Variant bit fields."),
